@@ -13,9 +13,45 @@ use std::time::Duration;
 // ---- panic capture --------------------------------------------------------------------------------
 
 static PANICS: Mutex<Vec<String>> = Mutex::new(Vec::new());
-/// role of the panicking thread, read off its backtrace: "pool" (worker_loop), "flush"
-/// (enforce_wal_limit), "other" (callers, flush jobs, background threads)
+/// role of the panicking thread: "pool" (a worker thread, see learn_pool_threads) or "other"
+/// (callers, flush jobs, the flush thread, background threads)
 static ROLES: Mutex<Vec<&'static str>> = Mutex::new(Vec::new());
+static POOL_IDS: Mutex<Vec<std::thread::ThreadId>> = Mutex::new(Vec::new());
+
+/// Learn the ThreadIds of the `k` worker threads of a healthy database: schedule k tasks that each
+/// record their thread and then wait until all k have arrived (so that k distinct workers run them).
+pub fn learn_pool_threads(db: &Arc<LocustDB>, k: usize) -> bool {
+    use locustdb::verif::scheduler::Task;
+    let arrived = Arc::new((Mutex::new(0usize), std::sync::Condvar::new()));
+    let mut receivers = vec![];
+    for _ in 0..k {
+        let arrived = arrived.clone();
+        let (task, rx) = <dyn Task>::from_fn(move || {
+            if let Ok(mut ids) = POOL_IDS.lock() {
+                ids.push(std::thread::current().id());
+            }
+            let (m, cv) = &*arrived;
+            let mut n = m.lock().unwrap();
+            *n += 1;
+            cv.notify_all();
+            let deadline = std::time::Instant::now() + Duration::from_secs(60);
+            while *n < k && std::time::Instant::now() < deadline {
+                n = cv.wait_timeout(n, Duration::from_millis(200)).unwrap().0;
+            }
+        });
+        db.schedule(task);
+        receivers.push(rx);
+    }
+    let ok = runtime().block_on(async {
+        for rx in receivers {
+            if tokio::time::timeout(Duration::from_secs(90), rx).await.is_err() {
+                return false;
+            }
+        }
+        true
+    });
+    ok && POOL_IDS.lock().map(|ids| ids.len() == k).unwrap_or(false)
+}
 static ANY_PANIC: std::sync::atomic::AtomicBool = std::sync::atomic::AtomicBool::new(false);
 
 /// has any thread of this process panicked so far (a hang is then plausible; without any panic a
@@ -47,13 +83,12 @@ pub fn install_panic_hook() {
                 })
                 .unwrap_or_default();
             ANY_PANIC.store(true, std::sync::atomic::Ordering::SeqCst);
-            let bt = std::backtrace::Backtrace::force_capture().to_string();
-            let role = if bt.contains("worker_loop") || bt.contains("start_worker_threads") {
-                "pool"
-            } else if bt.contains("enforce_wal_limit") {
-                "flush"
-            } else {
-                "other"
+            // pool threads are recognised by their ThreadId (learn_pool_threads); no backtrace is taken:
+            // symbolication can take seconds on a loaded machine and would itself look like a hang
+            let me = std::thread::current().id();
+            let role = match POOL_IDS.lock() {
+                Ok(ids) if ids.contains(&me) => "pool",
+                _ => "other",
             };
             if let (Ok(mut p), Ok(mut r)) = (PANICS.lock(), ROLES.lock()) {
                 p.push(format!("{}: {}", file, msg));
